@@ -3,7 +3,7 @@
    accepts).  Symbolic cryptography: [verify] succeeds iff the signer is one of the server's
    keys, the header algorithm is derived from those keys, and the bytes are unaltered. *)
 From Coq Require Import String ZArith NArith List Bool.
-From KM Require Import Base.Bytes Model.Tokens Model.OIDC Proofs.Tokens Proofs.OIDC.
+From KM Require Import Base.Bytes Model.Tokens Model.OIDC Proofs.Tokens Proofs.OIDC Proofs.OIDCChannels.
 Import ListNotations.
 Open Scope Z_scope.
 
@@ -60,7 +60,8 @@ Theorem c04_single_claim_resigned : forall i now c t n v, accepts i now c (recla
   (n = "aud"%string -> must_name_server c -> exists rest, v = VList (s_issuer (srv i) :: rest)) /\
   (n = "nbf"%string -> checks_nbf c -> exists z, v = VInt z /\ z <= unix now) /\
   (n = "exp"%string -> exists z, v = VInt z /\ exp_ok now c z) /\
-  (n = "sub"%string -> match c with CCliSend _ u | CStorage _ u _ _ => v = VStr u | _ => True end) /\
+  (n = "sub"%string -> match c with CCliSend _ u | CStorage _ u _ _ => v = VStr u
+                                  | CToken r => v = VStr (fst (presented_creds r)) | _ => True end) /\
   (n = "auth_type"%string -> match c with CSession req => exists l, v = VInt l /\ Z.land l req <> 0 | _ => True end).
 Proof. exact single_claim_resigned. Qed.
 
@@ -121,6 +122,55 @@ Theorem c04_storage_data_type_unbound : forall st now issue user dt dt' data exp
   c_storage st now user {| r_col_exp := col; r_jws := p_storage st issue user dt data exp |} =
   c_storage st now user {| r_col_exp := col; r_jws := p_storage st issue user dt' data exp |}.
 Proof. exact storage_data_type_unbound. Qed.
+
+(* The token endpoint's subject binding, for every combination of the two channels a token request
+   can name a client in - the Authorization: Basic header (id, secret) and the body (client_id,
+   client_secret), which may name different registered clients, with right or wrong secrets in
+   either.  Whenever tokens are released the request authenticated as exactly ONE configured client
+   [id] (the header's when a header is present, the body's client_id only otherwise), that client
+   proved its identity with the credentials of THAT channel (its secret, or PKCE against the
+   challenge sealed into this code), the code's signed subject is [id], and the ID token's sole
+   audience is [id]. *)
+Theorem c04_token_one_client : forall i now r idt act, token_endpoint i now r = Release idt act ->
+  exists id c k,
+    authenticated_client r = Some id /\ find_client id (clients i) = Some c /\ cl_id c = id /\
+    dec_code (t_claims (tr_code r)) = Some k /\ client_authenticated c k r /\
+    rd_str "sub" (t_claims (tr_code r)) = Some id /\
+    rd_list "aud" (t_claims idt) = Some [id].
+Proof. exact token_one_client. Qed.
+
+(* Which channel speaks: a header silences the body completely (the result does not depend on the
+   body's client_id / client_secret, whatever they are) ... *)
+Theorem c04_token_header_silences_body : forall i now r fc fs, tr_basic r <> None ->
+  token_endpoint i now (with_form r fc fs) = token_endpoint i now r.
+Proof. exact header_decides. Qed.
+
+Theorem c04_token_channel : forall r,
+  (forall hid hsec, tr_basic r = Some (hid, hsec) -> authenticated_client r = Some hid) /\
+  (forall id, tr_basic r = None -> authenticated_client r = Some id -> id = tr_form_client r /\ id <> []).
+Proof. intro r. split; [exact (authenticated_client_header r)|exact (authenticated_client_body r)]. Qed.
+
+(* ... so a code issued to another client than the one the request authenticated as is refused:
+   client B with its own valid credentials in the header cannot redeem A's code by naming A in the
+   body (with or without A's secret). *)
+Theorem c04_code_of_other_client_refused : forall i now r hid hsec a,
+  tr_basic r = Some (hid, hsec) -> rd_str "sub" (t_claims (tr_code r)) = Some a -> a <> hid ->
+  exists s, token_endpoint i now r = Refuse s.
+Proof. exact header_names_other_client_refused. Qed.
+
+(* The reading "compare the code's subject with the body's client_id when there is one" (while the
+   client is authenticated from the header) is refuted: clientC, header (clientC, secretC), body
+   client_id=clientA, redeems the code issued to clientA and gets an ID token for the audience
+   clientC; the handler as it is refuses with 401, and still releases to A itself whatever the body
+   names. *)
+Theorem c04_body_subject_reading_refuted :
+  (exists idt act, token_endpoint_body_subject idp3 (1010 * NS) two_channel_req = Release idt act /\
+     rd_list "aud" (t_claims idt) = Some [b "clientC"] /\
+     rd_str "sub" (t_claims (tr_code two_channel_req)) = Some (b "clientA") /\
+     authenticated_client two_channel_req = Some (b "clientC")) /\
+  token_endpoint idp3 (1010 * NS) two_channel_req = Refuse 401 /\
+  ch_is_release (token_endpoint idp3 (1010 * NS) (with_form (with_basic two_channel_req (Some (b "clientA", b "secretA"))) (b "clientC") (b "secretC"))) = true.
+Proof. exact body_subject_reading_refuted. Qed.
 
 (* ---------------------------------------------------------------- non-vacuity *)
 Definition idp0 : idp :=
